@@ -2,7 +2,7 @@
    Line kinds:
      T <cfg> <P> <me> <ops> | <ev> ; <ev> ; ...     co-simulation of the program of rank <me> (cfg A: the one process)
      G <cfg> <P> <node> <plan> <ops>                prediction of the global model
-   <cfg>  A | C
+   <cfg>  A | C | B (MPI I/O: programs and global model of C12/MpiioModel.v with the simulated MPI's MPI_Error_class)
    <ops>  OPS <n> then per operation   o <amode> | c | W <size> <k> {<off> <count> <data>}*k | R <size> <k> {<off> <count> -}*k
                                         | w <size> <off> <count> <data> | r <size> <off> <count> -
    <node> A (absent) | N (missing directory) | D (is a directory) | F <payload>
@@ -92,7 +92,8 @@ let () = iter_lines (fun line ->
     | "T" :: cfg :: p :: me :: rest ->
       let (ops, _) = parse_ops rest in
       let evs = List.filter_map (fun e -> if String.trim e = "" then None else Some (parse_ev e)) (String.split_on_char ';' evtext) in
-      let prog = (match cfg_of cfg with
+      let prog = if cfg = "B" then scen_prog_B errclassB (z_of_hex me) ops hB_none [] else
+                 (match cfg_of cfg with
                   | CfgA -> scen_prog_A ops h_none []
                   | CfgC -> scen_prog_C (z_of_hex p) (z_of_hex me) ops h_none []) in
       print_endline (walk prog evs 0)
@@ -114,6 +115,11 @@ let () = iter_lines (fun line ->
         (match List.find_opt (fun (rk, fn, kk, _, _) -> zeq rk q && zeq fn f && zeq kk k) faults with
          | Some (_, _, _, e, sh) -> Some (e, sh) | None -> None) in
       let (ops, _) = parse_ops rest in
+      let show w outs =
+         let file = (match w_node w with Absent -> "missing" | NoDir -> "missing" | IsDir -> "dir" | File d -> if d = [] then "=" else string_of_pl d) in
+         print_endline (String.concat " | " (List.map (fun per -> String.concat " " (List.map string_of_pl per)) outs)
+                        ^ " # " ^ file ^ " " ^ hex_of_z (w_fail w) ^ " " ^ hex_of_z (w_open w) ^ " " ^ hex_of_z (w_ledger w)) in
+      if cfg = "B" then (let (g, outs) = gB_scen errclassB (z_of_hex p) (gstB0 node plan) ops in show (b_w g) outs) else
       (match g_scen c (z_of_hex p) (gstate0 node plan) ops with
        | None -> print_endline "ABORT"
        | Some (g, outs) ->
